@@ -66,6 +66,7 @@ func stateKeyFor(cls, sender string) *string {
 //	none      signatures emptied
 //	wrongkey  under the sender's server name and key ID, with another private key
 //	other     only by another server (really signed)
+//	casevar   only by the server named like the sender's server in another letter case (really signed, its own key)
 //	tampered  really signed, then a signed field (depth) changed
 //	expired / revoked   really signed; the key database says valid_until_ts / expired_ts lies before the event's time
 func (w *world) concreteEvent(e AbsEv, ts time.Time) []byte {
@@ -112,6 +113,9 @@ func (w *world) concreteEvent(e AbsEv, ts time.Time) []byte {
 		if e.Ssrv == "X" {
 			signer = servers["J"]
 		}
+		key = signer.priv
+	case "casevar": // only signed by the server whose name is the sender's server's in another letter case
+		signer = casePartner(e.Ssrv)
 		key = signer.priv
 	}
 	ev, err := w.buildEvent(w.roomID(e.Room), typ, skey, sender, content, w.authFor(authEvs...), []string{w.last}, w.depth+1, ts, signer, key)
